@@ -97,6 +97,23 @@ PROPS = {
         assumptions=['time parameters are whatever the callers pass; theorems quantify over all of them'],
         trusted_base=['lock coroutines are modelled by hand and tied by sysdiff'],
     ),
+    'C02': dict(
+        modules=['Resonate.Properties.C02'],
+        tie_filter=r'promise(Select_|Insert|Update)|callbackInsert|shape|wiring|uniques',
+        harness=[sysdiff('sysdiff-linearizable', None, (25, 120), (600, 150), 'C02,C01,C03', ['-routed', '40', '-fail', '15', '-crash', '1', '-known', 'F5'], (200, 150)),
+                 sysdiff('sysdiff-linearizable-focus', ['ReadPromise', 'CreatePromise', 'CreatePromiseAndTask', 'CompletePromise', 'CreateCallback', 'CreateSubscription', 'ClaimTask', 'CompleteTask', 'AcquireLock', 'ReleaseLock'],
+                         (20, 100), (500, 120), 'C02,C01', ['-focus', '-smallcfg', '-fail', '10', '-crash', '1', '-known', 'F5'], (200, 120))],
+        rule=SYS_RULE + '; the linearizability checker runs inside the model driver on the history of the run: database snapshots after EVERY transaction (also inside a batch), the tick times, the router answer of each request; '
+             'for every response (platform errors excepted) it searches the request\'s window — snapshots from its submission to its response x ticks in the window — for an instant at which the SEQUENTIAL specification '
+             '(C02.seqRun: the same coroutine served alone, Lean) gives exactly this response (for ClaimTask: status, task and links at that instant, each attached promise a state it had inside the window); a response '
+             'with no such instant is a violation; since sysdiff requires the implementation\'s events to equal the model\'s, the verdict is about the implementation\'s responses; workloads over 4 shared promise ids, '
+             'focus mode with 2 ids and deadlines near the clock, queue / batch / pool sizes down to 1, failures before / after commit',
+        assumptions=['request clocks: a request is evaluated at the tick at which its coroutine was (re)started — any tick of its window is admitted by the checker',
+                     'ClaimTask attaches promises read in a later transaction than the claim (DESIGN §8)'],
+        trusted_base=['the theorems cover single-transaction requests, promise completion (incl. lazy time-out), and read stability for creation and registration; ClaimTask / CompleteTask, CreateSchedule and SearchPromises '
+                      'with lazy time-outs are covered by the trace checker only (bounded by the explored runs, not a proof)',
+                      'the trace checker is Lean code in the driver (Driver/Main.lean), not a theorem'],
+    ),
     'C03': dict(
         modules=['Resonate.Properties.C03'],
         tie_filter=r'promise(Insert|Update|Select_)|taskInsert_|shape|wiring|uniques',
